@@ -6,6 +6,7 @@
 -/
 import SfModel.BlockFile
 import SfProofs.BlockWriter
+import SfProofs.BlockVox
 namespace Sf.C07Block
 open Sf Sf.Block Sf.Block.Proofs
 
@@ -45,6 +46,24 @@ theorem vox_partition_pads :
     (Oki.writeBlock 5 {} [256, 512, 768, 1024] 4).2.1.length = 2 ∧
     ((Oki.writeBlock 4 {} [256, 512, 768] 3).2.1 ++
       (Oki.writeBlock 2 (Oki.writeBlock 4 {} [256, 512, 768] 3).1 [1024] 1).2.1).length = 3 := by decide
+
+/-- what holds (the excluded class is exactly KF-VOX-ODD): when the first call has an even number of samples, two
+    calls produce the bytes, the count and the encoder state of one call with the concatenation — whatever the
+    512-sample pieces of `vox_write_block` are -/
+theorem vox_partition_partial (st : Oki.St) (xs ys : List Int) (hx : xs.length % 2 = 0) (hy : ys.length % 2 = 0) :
+    (Oki.writeBlock ((xs ++ ys).length + 1) st (xs ++ ys) (xs ++ ys).length).1 =
+      (Oki.writeBlock (ys.length + 1) (Oki.writeBlock (xs.length + 1) st xs xs.length).1 ys ys.length).1 ∧
+    (Oki.writeBlock ((xs ++ ys).length + 1) st (xs ++ ys) (xs ++ ys).length).2.1 =
+      (Oki.writeBlock (xs.length + 1) st xs xs.length).2.1 ++
+        (Oki.writeBlock (ys.length + 1) (Oki.writeBlock (xs.length + 1) st xs xs.length).1 ys ys.length).2.1 ∧
+    (Oki.writeBlock ((xs ++ ys).length + 1) st (xs ++ ys) (xs ++ ys).length).2.2 = xs.length + ys.length := by
+  rw [writeBlock_even _ st (xs ++ ys) (by rw [List.length_append]; omega) (Nat.lt_succ_self _),
+    writeBlock_even _ st xs hx (Nat.lt_succ_self _), writeBlock_even _ _ ys hy (Nat.lt_succ_self _),
+    encPairs_append xs st ys hx]
+  exact ⟨rfl, rfl, List.length_append⟩
+
+example : (Oki.writeBlock 5 {} ([256, 512] ++ [768, 1024]) 4).2.1 =
+    (Oki.writeBlock 3 {} [256, 512] 2).2.1 ++ (Oki.writeBlock 3 (Oki.writeBlock 3 {} [256, 512] 2).1 [768, 1024] 2).2.1 := by decide
 
 /-! ## the flush at close -/
 
